@@ -574,7 +574,7 @@ def _feed_layer(segments, dtls):
 _LAYER_HELLO = dict(suites=(0x1301, 0xC02F), extensions=[("sni", [(0, list(b"a.bc"))]), ("alpn", [list(b"h2")])])
 
 
-def h_layer(X, max_cuts, dense):
+def h_layer(X, max_cuts, dense, quick=True):
     dtls = X.boolean("dtls")
     body, _ = T.hello_body(dtls=dtls, **_LAYER_HELLO)
     hs = T.handshake(body, dtls=dtls)
@@ -584,7 +584,7 @@ def h_layer(X, max_cuts, dense):
         if X.boolean("second_record"):
             stream += T.record([16, 0, 0, 1, 0, 1, 0, 0, 0, 0, 0, 1, 7], dtls=True, seq=1)
     else:
-        menu = [1, 3, 4, 5, 40, L - 1]
+        menu = [1, 4, 5, L - 1] if quick else [1, 3, 4, 5, 40, L - 1]
         nrc = X.choose("record_cuts", 3)
         rc = []
         lo = 0
@@ -593,7 +593,7 @@ def h_layer(X, max_cuts, dense):
             j = X.choose(f"rc{i}", list(range(lo, len(menu))))
             rc.append(menu[j])
             lo = j + 1
-        trailing = X.choose("trailing", ["none", "same-record", "next-record"])
+        trailing = X.choose("trailing", ["none", "next-record"] if quick else ["none", "same-record", "next-record"])
         hs2 = hs + ([2, 0, 0, 1] if trailing == "same-record" else [])
         stream = T.split_records(hs2, rc)
         if trailing == "next-record":
@@ -831,11 +831,11 @@ def h_mutations(X, tier):
 # obligation: DTLS fragmentation (RFC 6347 §4.2.3)
 
 
-def h_dtls_fragmentation(X):
+def h_dtls_fragmentation(X, maxfr=3):
     sni = X.choose("sni", ["none", "host"])
     exts = [("sni", [(0, list(b"example.com"))])] if sni == "host" else None
     body, _ = T.hello_body(dtls=True, suites=(0xC02B, 0xC02F), extensions=exts)
-    nfr = X.choose("fragments", [1, 2, 3])
+    nfr = X.choose("fragments", list(range(1, maxfr + 1)))
     cuts, lo = [], 1
     for i in range(nfr - 1):
         c = X.choose(f"cut{i}", list(range(lo, len(body) - (nfr - 2 - i))))
@@ -927,9 +927,9 @@ def validate_shims():
 def obligations(tier):
     quick = tier == "quick"
     n_tls, n_dtls = (16, 29) if quick else (20, 32)
-    smax, rmax = (9, 3) if quick else (11, 4)
-    r_tls, r_dtls = (17, 16) if quick else (21, 20)
-    e_max = int(__import__("os").environ.get("C13_EMAX", 0)) or (14 if quick else 16)
+    smax, rmax = (8, 3) if quick else (10, 4)
+    r_tls, r_dtls = (15, 14) if quick else (19, 18)
+    e_max = int(__import__("os").environ.get("C13_EMAX", 0)) or (13 if quick else 15)
     return [
         Concrete("shim-validation", validate_shims, bounds="struct / BytesIO / KaitaiStream / range models == real C helpers on every truncation of two reference hellos",
                  encoded=[]),
@@ -948,37 +948,37 @@ def obligations(tier):
         Symx("reassembly-dtls", shimmed(lambda X: h_reassembly_dtls(X, 4 if quick else 6)),
              bounds="DTLS record with symbolic 24-bit fragment_length, body <= 4/6 symbolic bytes, optional second record, every prefix",
              encoded=ENCODED[5:7], must_reach=["complete", "incomplete", "overlong"], stubs=STUBS, parallel_depth=3),
-        Symx("layer-segmentation", lambda X: h_layer(X, 2, not quick),
-             bounds="real ClientTLSLayer: reference hello (SNI+ALPN) in <= 3 TLS records (cuts from {1,3,4,5,40,L-1}) with/without trailing "
+        Symx("layer-segmentation", lambda X: h_layer(X, 2, not quick, quick),
+             bounds="real ClientTLSLayer: reference hello (SNI+ALPN) in <= 3 TLS records (cuts from " + ("{1,4,5,L-1}" if quick else "{1,3,4,5,40,L-1}") + ") with/without trailing "
                     "handshake data, or DTLS record (+ second record); TCP stream cut into <= 3 segments (first cut anywhere, second "
                     + ("anywhere" if not quick else "from 5 positions relative to the first") + "); tls_clienthello hook withheld",
              encoded=ENCODED[8:9] + ENCODED[4:5], must_reach=["hello", "completed-by-later-segment"], parallel_depth=4),
         Symx("hello-bytes-tls", shimmed(lambda X: h_hello_bytes(X, False, r_tls)),
              bounds=f"ALL ClientHello bodies of length 32..{34 + r_tls} (every byte symbolic) through parse_client_hello vs strict reference parser",
              encoded=ENCODED[4:5] + ENCODED[9:15], must_reach=["accepted", "ref-accepts", "with-extensions", "both-reject", "lenient-accept"],
-             stubs=STUBS, parallel_depth=6),
+             stubs=STUBS, parallel_depth=3),
         Symx("hello-bytes-dtls", shimmed(lambda X: h_hello_bytes(X, True, r_dtls)),
              bounds=f"ALL DTLS ClientHello bodies of length 33..{35 + r_dtls} (every byte symbolic) through dtls_parse_client_hello vs strict reference parser",
              encoded=ENCODED[7:8] + ENCODED[9:16], must_reach=["accepted", "ref-accepts", "with-extensions", "both-reject", "lenient-accept"],
-             stubs=STUBS, parallel_depth=6),
+             stubs=STUBS, parallel_depth=3),
         Symx("extension-bytes-tls", shimmed(lambda X: h_hello_bytes(X, False, e_max, ext_only=True)),
              bounds=f"ClientHello with minimal mandatory part (symbolic version/random/suite) followed by ALL byte strings of length 0..{e_max} "
                     "as extensions area, vs strict reference parser (SNI names of <= 1 symbolic byte evaluated)",
              encoded=ENCODED[4:5] + ENCODED[9:15], must_reach=["accepted", "ref-accepts", "with-extensions", "with-sni", "with-alpn", "both-reject", "sni-must-equal", "lenient-accept"],
-             stubs=STUBS, parallel_depth=5),
+             stubs=STUBS, parallel_depth=3),
         Symx("extension-bytes-dtls", shimmed(lambda X: h_hello_bytes(X, True, e_max - 1, ext_only=True)),
              bounds=f"same for DTLS, extensions area 0..{e_max - 1} bytes",
              encoded=ENCODED[7:8] + ENCODED[9:16], must_reach=["accepted", "ref-accepts", "with-extensions", "with-sni", "with-alpn", "both-reject", "lenient-accept"],
-             stubs=STUBS, parallel_depth=5),
+             stubs=STUBS, parallel_depth=3),
         Symx("differential", shimmed(lambda X: h_differential(X, tier)),
              bounds="reference-encoded hellos: TLS/DTLS x 13 SNI classes x 0..3 ALPN names (symbolic bytes, lengths 2/8/1) x k symbolic 16-bit suites x "
                     "unknown extension (symbolic 16-bit type, symbolic body) first/last x session id 0/32 x 1-2 records; random/version symbolic",
-             encoded=ENCODED[4:16], must_reach=["compared", "sni-host", "sni-invalid-bytes", "sni-must-equal", "feature-set-malformed"], stubs=STUBS, parallel_depth=4),
+             encoded=ENCODED[4:16], must_reach=["compared", "sni-host", "sni-invalid-bytes", "sni-must-equal", "feature-set-malformed"], stubs=STUBS, parallel_depth=3),
         Symx("mutations", shimmed(lambda X: h_mutations(X, tier)),
              bounds="reference-encoded hellos (TLS/DTLS, SNI, 0..2 ALPN, unknown extension): body truncated at every offset; every length field "
                     "replaced by ANY other value (symbolic)",
-             encoded=ENCODED[4:16], must_reach=["mandatory-part-cut", "rejected", "lenient-accept"], stubs=STUBS, parallel_depth=4),
-        Symx("dtls-fragmentation", h_dtls_fragmentation,
-             bounds="DTLS ClientHello (with/without SNI) as 1..3 handshake fragments at every cut position, one record each or sharing a record",
+             encoded=ENCODED[4:16], must_reach=["mandatory-part-cut", "rejected", "lenient-accept"], stubs=STUBS, parallel_depth=3),
+        Symx("dtls-fragmentation", lambda X: h_dtls_fragmentation(X, 2 if quick else 3),
+             bounds="DTLS ClientHello (with/without SNI) as 1..2 (quick) / 1..3 handshake fragments at every cut position, one record each or sharing a record",
              encoded=ENCODED[7:8], must_reach=["unfragmented", "fragmented"], parallel_depth=3),
     ]
